@@ -287,6 +287,10 @@ class CInference(Inference):
                 logger.debug("eta %s", eta)
                 logger.debug("vSums %s", vSums[index])
                 logger.debug("fSums %s", fSums[index])
+            if not fSums[index]:
+                # the conditional cannot be falsified: its falsification rank is infinite,
+                # so every ranking accepts it and it puts no constraint on eta
+                continue
             mv, mf = freshVars(index)
             vMin = minima_encoding(mv, vSums[index])
             fMin = minima_encoding(mf, fSums[index])
